@@ -308,7 +308,9 @@ func (sr *scopeRun) noteInc(mid int, v int64) {
 	if !ok {
 		return
 	}
-	if sr.rootDead || sr.closed[sr.mScope[mid]] {
+	// (scope 0 is the root: a derivation can return the root itself, e.g. Tagged(<the root's own tags>), and the
+	// close / re-acquire stanza may then close it through that handle)
+	if sr.rootDead || sr.closed[0] || sr.closed[sr.mScope[mid]] {
 		if v != 0 {
 			sr.consFuzzy[nt] = true
 		}
